@@ -183,7 +183,11 @@ impl<'a, 'tcx> Cx<'a, 'tcx> {
             // unevaluated named constants: keep the def path
             match c.const_ {
                 Const::Unevaluated(uv, _) => {
-                    fields.push(("cdef", J::s(self.tcx.def_path_str(uv.def))));
+                    if let Some(p) = uv.promoted {
+                        fields.push(("prom", J::n(p.as_usize() as i128)));
+                    } else {
+                        fields.push(("cdef", J::s(self.tcx.def_path_str(uv.def))));
+                    }
                 }
                 _ => {
                     let mut s = format!("{}", c.const_);
@@ -475,6 +479,46 @@ impl<'a, 'tcx> Cx<'a, 'tcx> {
     }
 }
 
+
+fn dump_blocks<'a, 'tcx>(tcx: TyCtxt<'tcx>, cx: &Cx<'a, 'tcx>, body: &Body<'tcx>) -> Vec<J> {
+    let mut blocks = Vec::new();
+    for (_bb, data) in body.basic_blocks.iter_enumerated() {
+        let mut stmts = Vec::new();
+        for st in &data.statements {
+            match &st.kind {
+                StatementKind::Assign(b) => {
+                    let (p, r) = &**b;
+                    stmts.push(J::obj(vec![
+                        ("d", cx.place(p)),
+                        ("r", cx.rvalue(r)),
+                        ("ln", J::n(line_of(tcx, st.source_info.span) as i128)),
+                    ]));
+                }
+                StatementKind::SetDiscriminant { place, variant_index } => {
+                    let t = place.ty(&body.local_decls, tcx).ty;
+                    let vname = match t.kind() {
+                        ty::Adt(adt, _) => adt.variant(*variant_index).name.to_string(),
+                        _ => format!("#{}", variant_index.as_usize()),
+                    };
+                    stmts.push(J::obj(vec![
+                        ("d", cx.place(place)),
+                        ("r", J::obj(vec![("k", J::s("setdiscr")), ("v", J::s(vname))])),
+                        ("ln", J::n(line_of(tcx, st.source_info.span) as i128)),
+                    ]));
+                }
+                _ => {}
+            }
+        }
+        let term = data.terminator();
+        blocks.push(J::obj(vec![
+            ("c", J::Bool(data.is_cleanup)),
+            ("s", J::Arr(stmts)),
+            ("t", cx.terminator(term)),
+        ]));
+    }
+    blocks
+}
+
 fn dump_body<'tcx>(tcx: TyCtxt<'tcx>, ldid: LocalDefId, out: &mut String) {
     let def_id = ldid.to_def_id();
     let kind = tcx.def_kind(def_id);
@@ -543,43 +587,17 @@ fn dump_body<'tcx>(tcx: TyCtxt<'tcx>, ldid: LocalDefId, out: &mut String) {
     }
     f.push(("locals", J::Arr(locals)));
 
-    // blocks
-    let mut blocks = Vec::new();
-    for (_bb, data) in body.basic_blocks.iter_enumerated() {
-        let mut stmts = Vec::new();
-        for st in &data.statements {
-            match &st.kind {
-                StatementKind::Assign(b) => {
-                    let (p, r) = &**b;
-                    stmts.push(J::obj(vec![
-                        ("d", cx.place(p)),
-                        ("r", cx.rvalue(r)),
-                        ("ln", J::n(line_of(tcx, st.source_info.span) as i128)),
-                    ]));
-                }
-                StatementKind::SetDiscriminant { place, variant_index } => {
-                    let t = place.ty(&body.local_decls, tcx).ty;
-                    let vname = match t.kind() {
-                        ty::Adt(adt, _) => adt.variant(*variant_index).name.to_string(),
-                        _ => format!("#{}", variant_index.as_usize()),
-                    };
-                    stmts.push(J::obj(vec![
-                        ("d", cx.place(place)),
-                        ("r", J::obj(vec![("k", J::s("setdiscr")), ("v", J::s(vname))])),
-                        ("ln", J::n(line_of(tcx, st.source_info.span) as i128)),
-                    ]));
-                }
-                _ => {}
-            }
-        }
-        let term = data.terminator();
-        blocks.push(J::obj(vec![
-            ("c", J::Bool(data.is_cleanup)),
-            ("s", J::Arr(stmts)),
-            ("t", cx.terminator(term)),
-        ]));
-    }
+    let blocks = dump_blocks(tcx, &cx, body);
     f.push(("blocks", J::Arr(blocks)));
+    let proms = tcx.promoted_mir(def_id);
+    if !proms.is_empty() {
+        let mut pv = Vec::new();
+        for pb in proms.iter() {
+            let pcx = Cx { tcx, body: pb, env };
+            pv.push(J::Arr(dump_blocks(tcx, &pcx, pb)));
+        }
+        f.push(("promoted", J::Arr(pv)));
+    }
     J::obj(f).write(out);
     out.push('\n');
 }
